@@ -94,6 +94,14 @@ CHECKS = {
          'buffer, duration) with an all-blocking twin fed the same arrival schedule; recorded loop events replayed through the Lean model of mixed histories.',
          'Partial: awaited calls with timeout=0 and an EOF delivered while no call is outstanding are known findings (excluded from the parity theorem by construction of the model: '
          'acall0 / doneEofPre are separate definitions). Parity is judged up to and including the first EOF.', '4/C14'),
+ 'C16': ('Theorems C16.* over the run_command model (REPLWrapper.run_command / repl_run_command_async over the Expecter model, the REPL as an event stream): '
+         'expectPrompt_segment (one clean segment output ++ prompt, any cutting into reads => before = output, nothing pending), run_command_returns_own_output '
+         '(multi-line commands), incomplete_raises_and_resyncs, command_sequence (every sequence of complete and incomplete commands: each call returns exactly its own '
+         'output and the wrapper stays synchronised; sizes, lengths and chunkings unbounded), async_same_value, cleanB_sound. Tie: the real REPLWrapper on a scripted '
+         'spawn with the same event streams through the Lean model (clean / dirty segments classified by the model, the theorem\'s conclusion checked on the clean ones); '
+         'real bash, python and a fake REPL process, blocking and awaited, commands of known output up to 300 000 characters.',
+         'Hypothesis Seg.Clean (the REPL obeys the protocol: neither prompt string is completed before the end of an answer) is explicit and decidable; a command that prints the '
+         'prompt string is outside the theorem. SIGINT delivery and the REPL\'s reaction to it are part of the environment.', '4/C16'),
 }
 PENDING = {}
 for i in range(5, 21):
